@@ -191,13 +191,13 @@ def variants_for(cl, cr, seed, quick):
 def rand_doc(rng, budget=14, depth=0):
     from harness import absdoc  # noqa: F401
     scal = [None, 1, 2, 3, "a", "b", ("s", "1"), ("f", "1.5"), True]
-    keys = ["a", "b", "c", "n", "v", "k.x", "my key"]
+    keys = ["a", "b", "c", "n", "v", "k.x", "my key", 0, "0", 7]
 
     def gen(depth, budget):
         roll = rng.random()
         if depth == 0 and roll < 0.35 and rng.random() < 0.9:
             roll = 0.35 + rng.random() * 0.65
-        if depth >= 4 or budget[0] <= 1 or roll < 0.35:
+        if depth >= 5 or budget[0] <= 1 or roll < 0.35:
             budget[0] -= 1
             return rng.choice(scal)
         budget[0] -= 1
@@ -210,7 +210,7 @@ def rand_doc(rng, budget=14, depth=0):
             n = rng.randint(1, 3)
             ids = rng.sample([1, 2, 3, 4], n)
             return [dict([("n", i)] + [(k, gen(depth + 2, budget)) for k in rng.sample(["v", "a", "b"], rng.randint(0, 2))]) for i in ids]
-        return set(rng.sample(["a", "b", "c"], rng.randint(0, 2)))
+        return set(rng.sample(["a", "b", "c", 1, ("s", "1")], rng.randint(0, 2)))
     return gen(depth, [budget])
 
 
@@ -230,7 +230,7 @@ def rand_edit(rng, x, depth=0):
     if isinstance(x, dict):
         y = dict(x)
         if op == "ins":
-            y[rng.choice(["a", "b", "c", "z"])] = rand_doc(rng, 3, 3)
+            y[rng.choice(["a", "b", "c", "z", 0, "0"])] = rand_doc(rng, 3, 3)
         elif op == "del" and y:
             del y[rng.choice(list(y))]
         elif op == "reo" and len(y) > 1:
@@ -254,9 +254,9 @@ def rand_edit(rng, x, depth=0):
     if isinstance(x, (set, frozenset)):
         y = set(x)
         if op == "del" and y:
-            y.discard(rng.choice(sorted(y)))
+            y.discard(rng.choice(sorted(y, key=repr)))
         else:
-            y.add(rng.choice(["a", "b", "c", "d"]))
+            y.add(rng.choice(["a", "b", "c", "d", 2]))
         return y
     return rng.choice([None, 1, 2, "a", "zz", [], {}, [1], ("s", "1")])
 
@@ -275,7 +275,7 @@ def random_records(seed, n, first_id):
     rng = random.Random(seed)
     recs, local = [], []
     while len(recs) < n * 10:
-        lit = rand_doc(rng)
+        lit = rand_doc(rng, rng.choice([8, 14, 24, 36]))
         roll = rng.random()
         if roll < 0.15:
             rit = lit
@@ -284,9 +284,9 @@ def random_records(seed, n, first_id):
             for _ in range(rng.randint(1, 3)):
                 rit = rand_edit(rng, rit)
         else:
-            rit = rand_doc(rng)
+            rit = rand_doc(rng, rng.choice([8, 14, 24]))
         l, r = absdoc.table(lit), absdoc.table(rit)
-        if len(l) > 24 or len(r) > 24:
+        if len(l) > 40 or len(r) > 40:
             continue
         variant = rng.choice(querycorpus.variant_of(l + r, 0, False))
         ldata, rdata, text = load_pair(l, r, variant)
@@ -350,10 +350,12 @@ def random_tier(ctx, npairs, stats):
             and all(v is None for k, v in diffobs.verdict(lc["rep"], lc["l"], lc["r"], lc["cfg"]).items() if k != "expect")]
     bad = [c for c in (corrupt(r, rng) for r in rng.sample(good, min(40, len(good)))) if c is not None]
     verdicts = {}
-    batch = 1500
+    batch = 1000
     allrecs = recs + bad
-    for b in range(0, len(allrecs), batch):
-        verdicts.update(validate_batch(ctx, allrecs[b:b + batch], "trace%03d" % (b // batch)))
+    from concurrent.futures import ThreadPoolExecutor
+    with ThreadPoolExecutor(max_workers=6) as ex:
+        for part in ex.map(lambda b: validate_batch(ctx, allrecs[b:b + batch], "trace%03d" % (b // batch)), range(0, len(allrecs), batch)):
+            verdicts.update(part)
     rejected = 0
     for c in bad:
         v = verdicts[c["id"]]
@@ -389,11 +391,15 @@ def random_tier(ctx, npairs, stats):
 
 
 def run(ctx):
-    # MC_Diff_mir: the clauses on the mirrored differ - TLC is expected to find the predicted defect
-    cfgs = ["MC_Diff_q.cfg", "MC_Diff_qr.cfg", "MC_Diff_qf.cfg", "MC_Diff_mir.cfg"] if ctx.quick else \
-           ["MC_Diff_t.cfg", "MC_Diff_tr.cfg", "MC_Diff_t2.cfg", "MC_Diff_q.cfg", "MC_Diff_qt.cfg", "MC_Diff_mir.cfg"]
+    # MC_Diff_mir: the clauses on the differ as pinned before the fix: commits (Repaired = {}) - TLC must find the defect;
+    # every other cfg mirrors the code with the five repairs (Repaired = AllFixes)
+    cfgs = ["MC_Diff_q.cfg", "MC_Diff_qr.cfg", "MC_Diff_qi.cfg", "MC_Diff_qf.cfg", "MC_Diff_mir.cfg"] if ctx.quick else \
+           ["MC_Diff_t.cfg", "MC_Diff_tr.cfg", "MC_Diff_t2.cfg", "MC_Diff_q.cfg", "MC_Diff_qt.cfg", "MC_Diff_ti.cfg", "MC_Diff_mir.cfg"]
     pairs = tlc_pairs(ctx, cfgs)
     mir = next(r for r in ctx.tlc_runs if r["name"] == "MC_Diff_mir")
+    if mir["violated"] != "MirroredTheorems":
+        raise core.MachineryError("MC_Diff_mir is a must-violate cfg (the pinned differ, Repaired = {}): TLC found no counterexample, "
+                                  "so the theorems or the mirror have lost their teeth")
     items = [(l, r, ms, variants_for(l, r, ctx.seed, ctx.quick)) for l, r, ms in pairs]
     tot = collections.Counter()
     seen = collections.Counter()
@@ -407,7 +413,7 @@ def run(ctx):
             seen[sig] += 1
             ctx.violation(sig, desc, rp if seen[sig] <= 3 else None)      # every case counted; replay data for the first few
     rstats = collections.Counter()
-    local = random_tier(ctx, 150 if ctx.quick else 1500, rstats)
+    local = random_tier(ctx, 300 if ctx.quick else 2000, rstats)
     selftest = rstats.pop("binding_selftest")
     ctx.informational = tot["informational"] + rstats["informational"] + tot["outside_domain"] + rstats["outside_domain"]
     ex = next((lc for lc in local if lc["rep"]), None)
